@@ -33,7 +33,7 @@ pub static INFO: PropInfo = PropInfo {
 };
 
 pub fn run(ctx: &Ctx, out: &mut Outcome) {
-    super::run_loop(ctx, out, 320, 120_000, 2, one_run);
+    super::run_loop(ctx, out, 4000, 400_000, 2, one_run);
 }
 
 pub fn one_run(ctx: &Ctx, out: &mut Outcome, run_seed: u64) {
